@@ -226,6 +226,18 @@ EvalFails(e) ==
   \cup (IF BoundedMaterial(p.b) /\ (e.e >= EvalBound \/ e.e <= -EvalBound) THEN {<<"C14", "bound", D(e.e)>>} ELSE {})
 
 (***************************************************************************)
+(* keypair: two engine states with their keys.  The key is a function of   *)
+(* the position's identity and an injective one on everything explored:    *)
+(* equal identity => equal key (transposed move orders, the same FEN),     *)
+(* different identity (one component perturbed) => different key.          *)
+(***************************************************************************)
+KeyPairFails(e) ==
+  LET ia == Identity(Decode(e.a))  ib == Identity(Decode(e.b)) IN
+  (IF ia = ib /\ e.a.key # e.b.key THEN {<<"C05", "same-position-different-key", D(<<e.fa, e.fb>>)>>} ELSE {})
+  \cup (IF ia # ib /\ e.a.key = e.b.key THEN {<<"C05", "different-position-same-key", D(<<e.fa, e.fb>>)>>} ELSE {})
+  \cup (IF e.a.res # <<>> \/ e.b.res # <<>> THEN {<<"C05", "residue-pair", D(<<e.fa, e.fb>>)>>} ELSE {})
+
+(***************************************************************************)
 (* cli: the command-line front end `walleye --fen <input> -T -d 1`.        *)
 (* It must exit normally for every string (printing the error); a spec     *)
 (* FEN must be accepted (the node count line is printed).                  *)
@@ -242,10 +254,11 @@ Fails(e) ==
     [] e.ev = "fen" -> FenFails(e)
     [] e.ev = "eval" -> EvalFails(e)
     [] e.ev = "cli" -> CliFails(e)
+    [] e.ev = "keypair" -> KeyPairFails(e)
     [] OTHER -> {<<"TOOL", "unknown-event", D(e.ev)>>}
 
 ZeroCnt == [gen |-> 0, diverged |-> 0, skipped |-> 0, castle |-> 0, ep |-> 0, promo |-> 0, incheck |-> 0, moves |-> 0,
-            chk |-> 0, txt |-> 0, pos |-> 0, fen |-> 0, eval |-> 0, cli |-> 0]
+            chk |-> 0, txt |-> 0, pos |-> 0, fen |-> 0, eval |-> 0, cli |-> 0, keypairs |-> 0, transpositions |-> 0]
 Count(c, e) ==
   CASE e.ev = "gen" ->
          IF WellFormed(SpecPos(e))
@@ -259,6 +272,8 @@ Count(c, e) ==
     [] e.ev = "fen" -> [c EXCEPT !.fen = @ + 1]
     [] e.ev = "eval" -> [c EXCEPT !.eval = @ + 1]
     [] e.ev = "cli" -> [c EXCEPT !.cli = @ + 1]
+    [] e.ev = "keypair" -> [c EXCEPT !.keypairs = @ + 1,
+                                     !.transpositions = @ + (IF e.kind = "transpose" /\ Identity(Decode(e.a)) = Identity(Decode(e.b)) THEN 1 ELSE 0)]
     [] OTHER -> c
 
 Init == l = 1 /\ bad = {} /\ cnt = ZeroCnt /\ div = <<>>
